@@ -31,13 +31,22 @@ def run_struct_job(harness, cfg, prop, seed=0, max_paths=200000, confirm=None, d
     replay=record, sig_extra=str); violated obligations are confirmed by `confirm(record, label)` which re-runs the
     concrete scenario on the real code from a clean state and returns (reproduced, why)."""
     t0 = time.time()
-    cex, unrepro, samples = [], [], []
+    cex, unrepro, samples, mismatches = [], [], [], []
     seen = collections.Counter()
     validated = [0]
 
     def on_path(ctx, out, statuses, res):
         if out.get('validated'):
             validated[0] += 1
+        elif out.get('path_check') is not None:
+            # translator validation: this path's own model, concretised, on the real code
+            m, _ = symx.nice_model(ctx, [])
+            if m is not None:
+                ok, why = out['path_check'](m)
+                if ok:
+                    validated[0] += 1
+                else:
+                    mismatches.append({'why': why, 'prefix': list(ctx.prefix)})
         if len(samples) < 3 and out.get('replay') is not None:
             samples.append({'outcome': out.get('outcome'), 'scenario': out['replay'], 'obligations': [l for l, _ in out.get('obligations', [])][:8]})
         for label, st, mdl in statuses:
@@ -50,7 +59,11 @@ def run_struct_job(harness, cfg, prop, seed=0, max_paths=200000, confirm=None, d
                 continue
             rec = dict(out.get('replay') or {})
             if out.get('concretise') is not None:
-                m = mdl
+                # full model of the whole path + violated obligation (the status model only covers the obligation's cone)
+                ob = dict(out.get('obligations', [])).get(label)
+                m, _ = symx.nice_model(ctx, [z3.Not(ob)] if ob is not None else [])
+                if m is None:
+                    m = mdl
                 if m is None:
                     m, _ = symx.nice_model(ctx, [])
                 rec = out['concretise'](m, label)
@@ -69,7 +82,7 @@ def run_struct_job(harness, cfg, prop, seed=0, max_paths=200000, confirm=None, d
         'paths': res.paths, 'decisions': res.decisions, 'queries': res.queries, 'obligations': res.obligations,
         'discharged': res.discharged, 'unknown': res.unknown[:20], 'maybe': res.maybe, 'aborted': res.aborted,
         'exhausted': res.exhausted, 'outcomes': dict(collections.Counter(res.outcomes).most_common(30)), 'solver_s': res.solver_s,
-        'validated': validated[0], 'mismatches': [], 'cex': cex, 'unreproduced': unrepro[:10], 'samples': samples,
+        'validated': validated[0], 'mismatches': mismatches[:10], 'cex': cex, 'unreproduced': unrepro[:10], 'samples': samples,
         'wall_s': time.time() - t0,
     }
 
